@@ -1767,6 +1767,74 @@ func c04PaginatedExtremes(c *Ctx, pr *paginatedRoles, rule string) {
 				inLoop[b] = true
 			}
 		}
+		// the walk stops at a bound of the table only once it is OUTSIDE the table: a refuted loop test that compares
+		// the page number with the table's first page (MaxIndex) or its end (MinIndex) establishes P < first resp.
+		// P ≥ first + len(pages) — a test that is refuted already AT the first page leaves that page unscanned
+		for _, p := range paths {
+			for _, cd := range p.Conds {
+				t := cd.Term
+				if cd.Taken || cd.If == nil || !inLoop[cd.If.Block()] || len(t.Args) != 2 || !(t.isBin("<") || t.isBin("<=")) {
+					continue
+				}
+				a, b := canonKey(t.Args[0]), canonKey(t.Args[1])
+				// refuted a < b: b ≤ a, i.e. a − b ≥ 0 ; refuted a ≤ b: b < a, i.e. a − b − 1 ≥ 0
+				f0 := linCombine(a, b, -1)
+				if t.isBin("<=") {
+					f0.Const--
+				}
+				only := func(l *Linear, keys ...string) bool { // the difference speaks of P-like forms over these atoms only
+					for k, v := range l.Coef {
+						if v == 0 {
+							continue
+						}
+						ok := false
+						for _, kk := range keys {
+							if k == kk {
+								ok = true
+							}
+						}
+						if !ok {
+							return false
+						}
+					}
+					return true
+				}
+				if !only(f0, "first", "npages") {
+					continue // not a comparison of a page number with a bound of the table
+				}
+				// a page number on the walk is first + npages − 1 − k (MaxIndex) or first + k (MinIndex): the refuted
+				// test must put it at first − 1 or below, resp. at first + npages or above. In both cases the fact
+				// f0 ≥ 0, with P eliminated, reads: (what the walk has passed) ≥ (the whole table)
+				// k: how many pages the walk has passed when the test is evaluated (from the page number's own form)
+				k := 0
+				if side.min {
+					k = a.Const // P = first + k on the left of P < first + npages
+					if a.Coef["npages"] != 0 {
+						k = b.Const
+					}
+				} else {
+					pl := b // first ≤ P: P = first + npages − 1 − k on the right
+					if a.Coef["npages"] != 0 {
+						pl = a
+					}
+					k = -1 - pl.Const
+				}
+				if f0.Const > k {
+					bad = firstNonEmpty(bad, fmt.Sprintf("the walk may leave the table after %d page(s) although the refuted test only shows len(pages) ≤ %d: %s", k, f0.Const, shorten(t.Key(), 100)))
+				}
+				if side.min {
+					// expected shape: P − (first + npages) ≥ 0 with P = first + k  ⇒  k − npages ≥ 0: coef(npages) = −1, coef(first) = 0
+					if !(f0.Coef["npages"] == -1 && f0.Coef["first"] == 0 && f0.Const >= 0) {
+						bad = firstNonEmpty(bad, "the walk leaves the table through a test that does not put the page number at or beyond first + len(pages): "+shorten(t.Key(), 110))
+					}
+				} else {
+					// expected shape: first − 1 − P ≥ 0 with P = first + npages − 1 − k ⇒ k − npages ≥ 0
+					if !(f0.Coef["npages"] == -1 && f0.Coef["first"] == 0 && f0.Const >= 0) {
+						bad = firstNonEmpty(bad, "the walk leaves the table through a test that does not put the page number below first: "+shorten(t.Key(), 110))
+					}
+				}
+			}
+		}
 		for _, p := range paths {
 			for _, cd := range p.Conds {
 				t := cd.Term
